@@ -223,7 +223,9 @@ def rerun_groups(results, max_per_tree=40, rng=None):
             # from a superseded execution were started from staging it left behind (S14 as well)
             stale = [depth[i] for i, e in enumerate(fin_obs["seq"])
                      if e["term"] and i in depth and depth[i] > 0 and i < len(pre["seq"])]
-            picked.append((n, sched, fates, bool(left), min(stale) if stale else 99))
+            # records started after the rerun that descend from a superseded execution: left-over staging ran
+            staged_left = any(i >= len(pre["seq"]) and depth.get(i, 0) >= 1 for i in range(len(fin_obs["seq"])))
+            picked.append((n, sched, fates, bool(left), (min(stale) if stale else 99) + (1000 if staged_left else 0)))
         if len(picked) > max_per_tree:
             picked = rng.sample(picked, max_per_tree)
         for n, sched, fates, partial, sd in picked:
